@@ -87,6 +87,7 @@ func e1Specs(prop, tier string) []engines.E1Spec {
 				}
 				specs = append(specs, engines.E1Spec{Name: fmt.Sprintf("W%d-names/none/rs20", i), Cfg: cfgNone, Setup: setup, Alphabet: engines.WAlphabet(engines.WNames)[:20], Depth: 1, Oracles: or})
 			}
+			specs = append(specs, engines.E1Spec{Name: "L-links/none/rs20", Cfg: cfgNone, Setup: engines.LinkSetup(), Alphabet: engines.LinkAlphabet(), Depth: map[bool]int{true: 3, false: 4}[tier == "quick"], Oracles: or, Level: "raw"})
 			specs = append(specs, engines.E1Spec{Name: "T-deep/none/rs20", Cfg: cfgNone, Alphabet: engines.DeepAlphabet(), Depth: map[bool]int{true: 3, false: 4}[tier == "quick"], Oracles: or})
 		}
 		return specs
@@ -191,7 +192,8 @@ func e1Specs(prop, tier string) []engines.E1Spec {
 							if sh == "(f(f))" && nc == "short" && rs == 20 {
 								// deeper follow-ups on one shape per format and root style: add / remove / re-add next to foreign members,
 								// also after the index has been rebuilt from the tape
-								deep := []ops.Op{{K: "put", P: "/new", C: "added"}, {K: "remove", P: "/new"}, {K: "put", P: "/d0/added", C: "T513:1"}, {K: "remove", P: "/d0/added"}, {K: "rebuild"}}
+								deep := []ops.Op{{K: "put", P: "/new", C: "added"}, {K: "remove", P: "/new"}, {K: "put", P: "/d1/added", C: "T513:1"}, {K: "remove", P: "/d1/added"}, {K: "rebuild"},
+									{K: "reindex"}, {K: "rename", P: "/d1", Q: "/dmoved"}, {K: "removeall", P: "/d1"}, {K: "put", P: "/d1/added2", C: "x"}}
 								d := 3
 								if tier != "quick" {
 									d = 4
@@ -218,6 +220,19 @@ func e1Specs(prop, tier string) []engines.E1Spec {
 					}
 					out = append(out, engines.E1Spec{Name: fmt.Sprintf("RO/setup%d/nowrite=%v/absent-index=%v", si, nowrite, absent), Cfg: rig.Config{RecordSize: 20, ReadOnly: true, NoWriteOps: nowrite},
 						Setup: setup, Alphabet: engines.ROAlphabet(), Depth: depth, Oracles: or, Level: "ro", AbsentIndex: absent})
+					if si < 2 {
+						// first open over a tape whose tail is torn (the rebuild fails part-way): cut inside the trailer, inside the
+						// last record's payload/padding and inside its header
+						for _, torn := range []int{512, 1030, 1600, 2100} {
+							if tier == "quick" && torn != 1030 && torn != 1600 {
+								continue
+							}
+							for _, ab := range []bool{true, false} {
+								out = append(out, engines.E1Spec{Name: fmt.Sprintf("RO/setup%d/nowrite=%v/absent-index=%v/torn=%d", si, nowrite, ab, torn), Cfg: rig.Config{RecordSize: 20, ReadOnly: true, NoWriteOps: nowrite},
+									Setup: setup, Alphabet: engines.ROAlphabet()[:26], Depth: 1, Oracles: or, Level: "ro", AbsentIndex: ab, TornBytes: torn})
+							}
+						}
+					}
 				}
 			}
 		}
@@ -242,6 +257,13 @@ func e1Specs(prop, tier string) []engines.E1Spec {
 			}
 			out = append(out, engines.E1Spec{Name: fmt.Sprintf("M/enc=%s,sig=%s,comp=%s", x.enc, x.sig, x.comp), Cfg: rig.Config{Encryption: x.enc, Signature: x.sig, Compression: x.comp, RecordSize: 20},
 				Alphabet: engines.MarkerAlphabet(), Depth: depth, Oracles: or, Level: "raw"})
+			// the same calls on a populated tree (a directory with several descendants, a file)
+			pd := 1
+			if tier != "quick" {
+				pd = 2
+			}
+			out = append(out, engines.E1Spec{Name: fmt.Sprintf("M-populated/enc=%s,sig=%s,comp=%s", x.enc, x.sig, x.comp), Cfg: rig.Config{Encryption: x.enc, Signature: x.sig, Compression: x.comp, RecordSize: 20},
+				Setup: engines.MarkerSetup(), Alphabet: engines.MarkerAlphabet(), Depth: pd, Oracles: or, Level: "raw"})
 		}
 		return out
 	case "C12":
